@@ -54,9 +54,6 @@ NEW_NESTED = [
     "mkl.sub.k",
     "other.deep.er.key",
 ]
-ALL_KEYS = EXISTING_LEAVES + EXISTING_SECTIONS + NEW_FLAT + NEW_NESTED
-# kwargs spellings: identifiers only, "__" becomes "."
-KWARG_KEYS = [k.replace(".", "__") for k in ALL_KEYS if "-" not in k]
 
 scalars = st.one_of(
     st.sampled_from(["numpy", "fftw", "float64", "float32", "cpu", "64 MB", "FFTW_ESTIMATE", ""]),
@@ -218,7 +215,7 @@ def _register(fn):
         "restore_history",
         history_quick,
         quick=2500,
-        thorough=25000,
+        thorough=10000,
         tol="exact (values and types)",
         rule="nesting depth >= 2 with one key path touched by two open contexts, or a key inserted that did not exist",
         nontrivial_floor=0.4,
@@ -229,7 +226,7 @@ def _register(fn):
         "restore_history_long",
         history_long,
         quick=400,
-        thorough=25000,
+        thorough=6000,
         tol="exact (values and types)",
         rule="nesting depth >= 2 with one key path touched by two open contexts, or a key inserted that did not exist (histories of up to 25 operations)",
         nontrivial_floor=0.5,
